@@ -645,6 +645,11 @@ class C42(core.Check):
                 return tag + 'error %d is neither Illegal function call nor Type mismatch' % status[1]
             if not 0 <= octave <= 6:
                 return tag + 'octave %d outside 0..6' % octave
+            if len(stc['b']) == 0:
+                # glue: PLAY "" is Missing operand (`if not any(mml_list)`), nothing is emitted
+                if status != [1, MISSING_OPERAND] or evs:
+                    return tag + 'PLAY "": expected Missing operand and no signal, got %r' % (status,)
+                continue
             if stc['ast'] is None:
                 # raw string: resynchronise the reference state from the observed one (same tolerance)
                 st.octave, st.fg = octave, bool(fg)
